@@ -18,6 +18,8 @@ import (
 	"sync"
 
 	"go.opentelemetry.io/collector/component"
+	"go.opentelemetry.io/collector/component/componentstatus"
+	"go.opentelemetry.io/collector/confmap"
 	"go.opentelemetry.io/collector/connector"
 	"go.opentelemetry.io/collector/connector/xconnector"
 	"go.opentelemetry.io/collector/consumer"
@@ -508,6 +510,10 @@ func (w *world) connectorFactory(typ string, pairs [][2]string) connector.Factor
 
 type extConfig struct {
 	Deps []component.ID `mapstructure:"deps"`
+	// Watch: the extension also implements the optional capability interfaces (status watcher, pipeline watcher, config
+	// watcher).  The start / stop order the property states depends on the declared dependencies ONLY, whatever else an
+	// extension implements (seeded change C10-5 ordered status watchers first).
+	Watch bool `mapstructure:"watch"`
 }
 
 type vExtension struct {
@@ -520,13 +526,32 @@ type vDepExtension struct{ vExtension }
 
 func (e *vDepExtension) Dependencies() []component.ID { return e.deps }
 
+// vWatchExtension additionally implements componentstatus.Watcher, extensioncapabilities.PipelineWatcher and ConfigWatcher.
+type vWatchExtension struct{ vExtension }
+
+func (e *vWatchExtension) ComponentStatusChanged(*componentstatus.InstanceID, *componentstatus.Event) {}
+func (e *vWatchExtension) Ready() error                                                             { return nil }
+func (e *vWatchExtension) NotReady() error                                                          { return nil }
+func (e *vWatchExtension) NotifyConfig(context.Context, *confmap.Conf) error                        { return nil }
+
+// vDepWatchExtension: all of the above.
+type vDepWatchExtension struct{ vWatchExtension }
+
+func (e *vDepWatchExtension) Dependencies() []component.ID { return e.deps }
+
 func (w *world) extensionFactory(typ string) extension.Factory {
 	return extension.NewFactory(component.MustNewType(typ), func() component.Config { return &extConfig{} },
 		func(_ context.Context, set extension.Settings, cfg component.Config) (extension.Extension, error) {
-			e := vExtension{base: base{w: w, k: "extension", id: set.ID.String(), inst: w.inst()}, deps: cfg.(*extConfig).Deps}
+			ec := cfg.(*extConfig)
+			e := vExtension{base: base{w: w, k: "extension", id: set.ID.String(), inst: w.inst()}, deps: ec.Deps}
 			w.log(e.ev("create"))
-			if len(e.deps) > 0 {
+			switch {
+			case len(e.deps) > 0 && ec.Watch:
+				return &vDepWatchExtension{vWatchExtension{e}}, nil
+			case len(e.deps) > 0:
 				return &vDepExtension{e}, nil
+			case ec.Watch:
+				return &vWatchExtension{e}, nil
 			}
 			return &e, nil
 		}, component.StabilityLevelDevelopment)
